@@ -91,6 +91,9 @@ func (mon) Plan(prop, tier string, seed int64) []drv.Shard {
 			add("ctx", 0, false, "GOMAXPROCS=2")
 			parts = 4
 			add("dwell", 0, false)
+			parts = 3
+			add("flood", 0, false)
+			add("flood", 0, false, "GOMAXPROCS=2")
 			parts = p
 		}
 		if thorough {
@@ -390,6 +393,33 @@ func dwellScenarios(seed int64, ms []int) []Scenario {
 	return out
 }
 
+// floodScenarios (C06): thousands of short tasks through few lanes with tiny queues, from several
+// producers at once - the queue goroutine and the worker of a lane are busy at the same instant all
+// the time (every task still starts exactly once; nothing is cancelled until the end).
+func floodScenarios(seed int64, n int) []Scenario {
+	var out []Scenario
+	for rep, cfg := range [][2]int{{2, 1}, {1, 0}, {2, 0}, {3, 2}, {1, 1}, {4, 1}} {
+		ls, qs := cfg[0], cfg[1]
+		var prods [][]PushSpec
+		for p := 0; p < 2+rep%3; p++ {
+			var pushes []PushSpec
+			for i := 0; i < n; i++ {
+				lane := 0
+				if rep%2 == 1 {
+					lane = (i + p) % ls
+				}
+				pushes = append(pushes, PushSpec{Lane: lane, Task: TaskSpec{Kind: []string{"instant", "instant", "yield"}[(i+p)%3]}})
+			}
+			prods = append(prods, pushes)
+		}
+		out = append(out, Scenario{LaneSize: ls, QueueSize: qs, TimeoutMs: 3600000, Producers: prods, Cancel: CancelPlan{Kind: "none"}, PostPush: 1, NoHook: rep%2 == 0})
+	}
+	for i := range out {
+		out[i].Seed = seed + int64(i)
+	}
+	return out
+}
+
 // ctxScenarios (C06/C07): what kind of context the lane is given and who pushes how soon after its
 // end. The lane is handed (a) a context type that is not the standard library's, (b) a standard
 // context with hundreds of other children, (c) a context that - itself or through an ancestor -
@@ -630,6 +660,11 @@ func (mn mon) Run(sh drv.Shard, c *drv.Ctx) {
 		list = rushScenarios(sh.Seed)
 	case "ctx":
 		list = ctxScenarios(sh.Seed)
+	case "flood":
+		list = floodScenarios(sh.Seed, 2000)
+		if sh.Tier == "thorough" {
+			list = append(list, floodScenarios(sh.Seed+7, 20000)...)
+		}
 	case "dwell":
 		list = dwellScenarios(sh.Seed, []int{1300})
 		if sh.Tier == "thorough" {
